@@ -284,6 +284,16 @@ def call_builtin(eng, fn, args, kwargs):
                     return (GuardedList(out),)
                 return ([i for _, i in out],)
             return NOT_HANDLED
+    import bisect as _bisect
+    if fn in (_bisect.bisect_right, _bisect.bisect, _bisect.bisect_left) and len(args) == 2 and not kwargs and \
+            isinstance(args[1], (SInt,)) and not isinstance(a0, Sym) and all(isinstance(v, int) for v in a0):
+        # documented contract on a sorted list: number of elements <= x (bisect_right) / < x (bisect_left)
+        if list(a0) != sorted(a0):
+            raise Unsupported('bisect on an unsorted list')
+        x = args[1].z
+        if fn is _bisect.bisect_left:
+            return SInt(z3.Sum([z3.If(z3.IntVal(v) < x, 1, 0) for v in a0]) if a0 else z3.IntVal(0))
+        return SInt(z3.Sum([z3.If(z3.IntVal(v) <= x, 1, 0) for v in a0]) if a0 else z3.IntVal(0))
     import itertools as _it
     if fn is _it.groupby:
         items = list(a0) if not isinstance(a0, Sym) else None
